@@ -609,7 +609,7 @@ func tagEntries(es []GoEntry) []GoEntry {
 func init() { register("TestC05_Txn", runC05) }
 
 func TestC05_Txn(t *testing.T) {
-	st := newStats(t, "C05", "TestC05_Txn", "one connection with a table pre-filled to tree heights 0-3 (entries_per_node 2-4096) and an observer table on a second connection; 1-14 steps: autocommit statements, BEGIN + 0-5 statements (multi-row, failing duplicate-key and NULL-key statements included) + COMMIT / ROLLBACK / COMMIT with the j-th mutating request failing (forced rollback), with explicit per-statement write_time or none; oracles: reads-own-writes after every statement, observer (refresh+scan) = committed model before the end and after it, ROLLBACK of either kind restores rows, s3db_version and the set of version objects (explicit rollback: zero PUT/DELETE), COMMIT adds at most one version object (exactly one if rows changed), entry-level timestamps written by a transaction without write_time are one instant and write_time reads NULL again; non-trivial = rollback after >=2 effective statements on height>=1, or a commit observed from the second connection")
+	st := newStats(t, "C05", "TestC05_Txn", "one connection with a table pre-filled to tree heights 0-3 (entries_per_node 2-4096) and an observer table on a second connection; 1-14 steps: autocommit statements, BEGIN + 0-5 statements (multi-row, failing duplicate-key and NULL-key statements included) + COMMIT / ROLLBACK / COMMIT with the j-th mutating request failing (forced rollback), with explicit per-statement write_time or none; oracles: reads-own-writes after every statement, observer (refresh+scan) = committed model before the end and after it, ROLLBACK of either kind restores rows, s3db_version and the set of version objects (explicit rollback: zero PUT/DELETE), COMMIT adds at most one version object (exactly one if rows changed), entry-level timestamps written by a transaction without write_time are one instant and write_time reads NULL again; a quarter of the transactions call s3db_refresh or s3db_vacuum (cutoff older than every write) on the table at a generated position: the call may be refused or may run, the connection must still read its own writes right after it and everything above must hold (what a call that ran wrote itself is not counted as the transaction's); non-trivial = rollback after >=2 effective statements on height>=1, or a commit observed from the second connection")
 	st.Assume = append(st.Assume,
 		"on multi-node trees the table is refreshed after a rollback before the next transaction (known finding K4), counted under excluded")
 	checkRapid(t, st, genC05Case, runC05)
